@@ -466,3 +466,9 @@ impl VringConfigData {
         })
     }
 }
+
+// Verification harnesses (Kani); the sources live outside this repository.
+#[cfg(feature = "verif")]
+mod verif {
+    include!(concat!(env!("VHOST_VERIF_DIR"), "/harness/vk_mod.rs"));
+}
